@@ -782,7 +782,7 @@ func genCall(r *common.Rng, f *fspec, maxLen int) *call {
 			}
 		}
 		if f.hasTest {
-			genTest(55, 8)
+			genTest(50, 16) // :test-not is a keyword of the shared parser (repo_fixes/C14-19)
 		}
 		if f.hasCount {
 			switch x := r.Intn(100); {
@@ -803,7 +803,7 @@ func genCall(r *common.Rng, f *fspec, maxLen int) *call {
 			c.key = common.Pick(r, keyNames)
 		}
 		if f.hasTest {
-			genTest(55, 8)
+			genTest(50, 14)
 		}
 	case "assoc":
 		c.s2 = make([]int, n)
@@ -818,7 +818,7 @@ func genCall(r *common.Rng, f *fspec, maxLen int) *call {
 			c.key = common.Pick(r, keyNames)
 		}
 		if f.hasTest {
-			genTest(60, 6)
+			genTest(55, 12)
 		}
 	case "search":
 		c.s2 = c.s1
@@ -827,6 +827,13 @@ func genCall(r *common.Rng, f *fspec, maxLen int) *call {
 		switch x := r.Intn(100); {
 		case x < 70 && n2 > 0:
 			lo := r.Intn(n2)
+			if r.Chance(20) { // the match at the very start of the searched range (the last offset :from-end tries)
+				lo = 0
+				if r.Chance(40) {
+					lo = r.Intn(n2)
+					c.start2 = lo
+				}
+			}
 			hi := lo + r.Intn(min(3, n2-lo)+1)
 			c.s1 = append([]int{}, c.s2[lo:hi]...)
 			if len(c.s1) > 0 && r.Chance(20) {
@@ -858,11 +865,18 @@ func genCall(r *common.Rng, f *fspec, maxLen int) *call {
 		} else if r.Chance(15) {
 			c.start, c.end = genBounds(r, len(c.s1), 60, 55, 10)
 		}
-		c.start2, c.end2 = genBounds(r, n2, 45, 40, 0)
+		if c.start2 >= 0 { // pattern cut at start2: keep that start, draw the end behind it
+			c.end2 = -1
+			if r.Chance(40) {
+				c.end2 = c.start2 + r.Intn(n2-c.start2+1)
+			}
+		} else {
+			c.start2, c.end2 = genBounds(r, n2, 45, 40, 0)
+		}
 		if r.Chance(35) {
 			c.key = common.Pick(r, keyNames)
 		}
-		genTest(45, 5)
+		genTest(42, 12)
 		c.fromEnd = r.Chance(50)
 	case "mismatch":
 		// sequence-2: sequence-1 with a change, a cut or an extension at either end
@@ -889,7 +903,7 @@ func genCall(r *common.Rng, f *fspec, maxLen int) *call {
 		if r.Chance(35) {
 			c.key = common.Pick(r, keyNames)
 		}
-		genTest(45, 5)
+		genTest(42, 12)
 		c.fromEnd = r.Chance(50)
 	case "subseq":
 		c.start, c.end = genBounds(r, n, 100, 60, 10)
@@ -950,6 +964,18 @@ func genCall(r *common.Rng, f *fspec, maxLen int) *call {
 		if len(c.s1) > 6 {
 			c.s1 = c.s1[:6]
 		}
+		if r.Chance(40) {
+			// different elements with the same key in BOTH sequences: only their order in the result tells
+			// from which sequence a tie was taken (stability)
+			c.key = common.Pick(r, []string{"KAbs", "KSq"})
+			c.test = common.Pick(r, []string{"TLt", "TGt"})
+			a, b := -1, 1
+			if r.Bool() {
+				a, b = 1, -1
+			}
+			c.s1 = append(c.s1, a)
+			c.s2 = append(c.s2, b)
+		}
 		if r.Chance(92) {
 			c.s1 = sortedBy(c.s1, c.test, c.key)
 			c.s2 = sortedBy(c.s2, c.test, c.key)
@@ -967,7 +993,7 @@ func genCall(r *common.Rng, f *fspec, maxLen int) *call {
 		if r.Chance(45) {
 			c.key = common.Pick(r, keyNames)
 		}
-		genTest(55, 6)
+		genTest(52, 12)
 	case "quant":
 		if r.Chance(35) {
 			c.nseq = 2
@@ -1069,7 +1095,7 @@ func Run(ctx *common.Ctx) {
 			ctx.Meta.Evaluations++
 		}
 		// a function that is not destructive must leave its arguments alone
-		if !f.destr && f.layout != "assoc" && !(f.lisp == "reduce" && c.key != "") {
+		if !f.destr && f.layout != "assoc" {
 			for _, form := range []int{asList, asVec} {
 				if f.listOnly && form != asList {
 					continue
